@@ -989,7 +989,7 @@ fn run_double_crash(cx: &mut Ctx, cfg: Cfg, word1: &[Op], cont: &[Op]) {
                 }
             }
         }
-        let max_id2 = max_id_in(pre).into_iter().chain(max_id_in(&rec2.log)).max();
+
         let first_op = rec2.log.iter().position(|c| matches!(c, Call::Mark(m) if m == "begin:0")).unwrap_or(rec2.log.len());
         let mut positions: Vec<usize> = (first_op..rec2.log.len()).filter(|&i| rec2.log[i].is_mutating()).collect();
         positions.push(rec2.log.len());
@@ -1018,6 +1018,8 @@ fn run_double_crash(cx: &mut Ctx, cfg: Cfg, word1: &[Op], cont: &[Op]) {
             cx.sh.states.insert(fph);
             cx.sh.nontrivial.insert(fph);
             let at2 = json!({"upto": upto2, "after_call": rec2.log[..upto2].iter().rev().find(|c| c.is_mutating()).map(|c| c.short())});
+            // every id the directory has contained up to the second crash
+            let max_id2 = max_id_in(pre).into_iter().chain(max_id_in(&rec2.log[..upto2])).max();
             let r2 = recover_in_child(&cx.rdir, cfg, max_id2, 1);
             let verdict: Option<(String, String)> = match &r2 {
                 Err(e) => Some((if e.contains("hang") { "recovery-hangs".into() } else { "recovery-aborts-the-process".into() }, e.clone())),
